@@ -17,7 +17,7 @@ import (
 
 func init() {
 	Register(&Prop{
-		ID: "C08", Engine: "A", Quick: 700, Thorough: 40000, Level: "exploration",
+		ID: "C08", Engine: "A", Quick: 700, Thorough: 20000, Level: "exploration",
 		Rule: "each case = one generated response script (the scripts of C03) whose whole byte stream, followed by a Pong, is handed to the network in one piece and then replayed under several delivery schedules: at once (reference), one byte at a time, two pieces at a drawn offset (every offset for streams <= 48 bytes), every composition for streams <= 12 bytes, random splits with short reads, and idle gaps longer than the read timeout placed at packet boundaries and right after a packet code; each replay is its own simulated run with its own goroutine schedule; oracle = transcript (callback trace with values, error class, outcome of the trailing Ping) equal to the reference; evaluations = replays; distinct = distinct (script, segmentation) digests; non-trivial = replays with more than one segment",
 		Run:  runC08,
 	})
